@@ -175,6 +175,33 @@ func FallJoin(s string, n int) int {
 	return int(a) + int(c)
 }
 
+// RuneSum, RuneIdx: range over the runes of a string (invalid bytes decode as U+FFFD of width 1), continue and break,
+// the byte index, a body that assigns its own range variables.
+func RuneSum(s string) int {
+	n := 0
+	for _, ch := range s {
+		if ch == 'l' {
+			continue
+		}
+		if ch == '!' {
+			break
+		}
+		n += int(ch)
+	}
+	return n
+}
+
+func RuneIdx(s string) int {
+	r := 0
+	for i, ch := range s {
+		r = r*31 + i + int(ch)%7
+		i += 5
+		ch = 'x'
+		r += i + int(ch)
+	}
+	return r
+}
+
 func Panics(x int) int {
 	if x < 0 {
 		panic("negative")
